@@ -190,12 +190,18 @@ PROPS = {
     ),
     'C06': dict(
         title='whatever the parser accepts is well-formed, re-serialisable and stable',
-        modules=['Pbc.Props.C02', 'Pbc.Lemmas.Elem', 'Pbc.Props.C01', 'Pbc.Props.C01b', 'Pbc.Props.C01c'],
+        modules=['Pbc.Props.C02', 'Pbc.Lemmas.Elem', 'Pbc.Props.C01', 'Pbc.Props.C01b', 'Pbc.Props.C01c', 'Pbc.Props.C01d',
+                 'Pbc.Props.C06a', 'Pbc.Props.C06b', 'Pbc.Props.C06c'],
         theorems=['Pbc.Props.C02.packMsg_length', 'Pbc.Props.C02.chunksMsg_flatten', 'Pbc.Props.C02.chunks_total',
                   'Pbc.Lemmas.scanKey_keyBytes', 'Pbc.Lemmas.scanLen_lenPrefixed',
                   'Pbc.Props.C01.packMsg_recs', 'Pbc.Props.C01.pack_scans',
                   'Pbc.Props.C01.roundtrip_partial',
-                  'Pbc.Props.C01.roundtrip'],
+                  'Pbc.Props.C01.roundtrip', 'Pbc.Props.C01.unpack_pack_canonical',
+                  # what the parser returns on ANY accepted input is canonical, hence stable (schemas without singular message fields)
+                  'Pbc.Props.C06.delimit_take', 'Pbc.Props.C06.scanLoop_acc', 'Pbc.Props.C06.parseRequired_shape',
+                  'Pbc.Props.C06.step_field', 'Pbc.Props.C06.step_oneof', 'Pbc.Props.C06.parseAll_inv',
+                  'Pbc.Props.C06.parsed_canon', 'Pbc.Props.C06.reparse_partial', 'Pbc.Props.C06.stable_partial',
+                  'Pbc.Props.C06.exS_good', 'Pbc.Props.C06.exOut_canon', 'Pbc.Props.C06.exOut_fits'],
         refine=PARSE_LEAVES + PACK_LEAVES + SIZE_LEAVES,
         cases=[('wire', 500, 8000, [])],
         oracle='c06',
